@@ -140,7 +140,8 @@ Section Thm.
     init E cf k0 va0 = Ok s0 -> reach s0 s -> Forall truthful (log s).
   Proof.
     intros Hi Hr. induction Hr as [|s1 fuel o s2 Hr IH Ho|s1 fuel o e s2 Hr IH Ho|s1 s2 Hr IHHr H].
-    - unfold init in Hi. pose proof (add_point_spec E cf 0%N (pre_init E cf k0 va0)) as P.
+    - unfold init in Hi. destruct (e_f E k0); [|discriminate].
+      pose proof (add_point_spec E cf 0%N (pre_init E cf k0 va0)) as P.
       destruct (c_check cf).
       + rewrite Hi in P. cbn in P.
         destruct P as (_ & _ & _ & _ & _ & (r & L & _ & _ & _ & _ & T)). rewrite L. cbn. auto.
